@@ -52,9 +52,11 @@ BodyApplies(src, b) ==
     [] src = "form"  -> b \in {"valid", "empty", "malformed-form"}
     [] OTHER         -> b \in {"valid", "truncated"}
 
-Rows == {r \in [method : Methods, header : Headers, body : Bodies, param : Params] :
+\* the name of the multi-valued parameter: its LENGTH must not matter (a one-letter name is a name)
+PNames == {"tags", "t"}
+Rows == {r \in [method : Methods, header : Headers, body : Bodies, param : Params, pname : PNames] :
            /\ BodyApplies(Source(r.method, r.header), r.body)
-           /\ (Source(r.method, r.header) = "json" => r.param = "missing")}
+           /\ (Source(r.method, r.header) = "json" => (r.param = "missing" /\ r.pname = "tags"))}
 
 (***************************************************************************)
 (* Expected observation of a row.  The schema is                           *)
@@ -62,7 +64,7 @@ Rows == {r \in [method : Methods, header : Headers, body : Bodies, param : Param
 (*   tagstr: String() (reads the same parameter as tags)                   *)
 (* name carries the sentinel of the source it was read from.               *)
 (***************************************************************************)
-TagKey(p) == IF p \in {"suffix-single", "suffix-repeated", "suffix-missing"} THEN "tags[]" ELSE "tags"
+TagKey(r) == IF r.param \in {"suffix-single", "suffix-repeated", "suffix-missing"} THEN r.pname \o "[]" ELSE r.pname
 
 Expected(r) ==
   LET src == Source(r.method, r.header)
@@ -86,7 +88,7 @@ Expected(r) ==
                   [] OTHER -> "[a b]"
       issues == IF decodeFails THEN {code \o "@"}
                 ELSE (IF name = "absent" THEN {"required@name"} ELSE {})
-                     \cup (IF tags = "absent" THEN {"required@" \o (IF src = "json" THEN "tags" ELSE TagKey(r.param))} ELSE {})
+                     \cup (IF tags = "absent" THEN {"required@" \o (IF src = "json" THEN "tags" ELSE TagKey(r))} ELSE {})
   IN [src |-> src, ran |-> ~decodeFails, untouched |-> decodeFails,
       name |-> IF decodeFails THEN "untouched" ELSE name,
       tags |-> IF decodeFails THEN "untouched" ELSE tags,
@@ -97,14 +99,14 @@ Expected(r) ==
 TableOK ==
   /\ \A r \in Rows : r.method \in {"GET", "HEAD"} => Expected(r).src = "query"
   /\ \A r \in Rows : (~Expected(r).ran) => (Cardinality(Expected(r).issues) = 1 /\ Expected(r).untouched)
-  /\ \A r1, r2 \in Rows : (r1.method = r2.method /\ r1.header.mt = r2.header.mt /\ r1.body = r2.body /\ r1.param = r2.param) => Expected(r1) = Expected(r2)
+  /\ \A r1, r2 \in Rows : (r1.method = r2.method /\ r1.header.mt = r2.header.mt /\ r1.body = r2.body /\ r1.param = r2.param /\ r1.pname = r2.pname) => Expected(r1) = Expected(r2)
 
 RowSeq == SetToSeq(Rows)
 VARIABLE l
 GenInit ==
   /\ IF TableOK THEN TRUE ELSE Assert(FALSE, "C15 table inconsistent")
   /\ ndJsonSerialize(CasesFile, [k \in DOMAIN RowSeq |-> [id |-> k, method |-> RowSeq[k].method, header |-> RowSeq[k].header.h, body |-> RowSeq[k].body,
-                                                          param |-> RowSeq[k].param, src |-> Source(RowSeq[k].method, RowSeq[k].header)]])
+                                                          param |-> RowSeq[k].param, pname |-> RowSeq[k].pname, src |-> Source(RowSeq[k].method, RowSeq[k].header)]])
   /\ PrintT(<<"ROWS", Len(RowSeq)>>)
   /\ l = 0
 GenNext == UNCHANGED l
@@ -119,7 +121,7 @@ TRow ==
          want == [ran |-> e.ran, untouched |-> e.untouched, name |-> e.name, tags |-> e.tags, tagstr |-> e.tagstr, issues |-> e.issues]
      IN TLCSet(1, TLCGet(1) \o (IF got # want \/ t.panic # ""
           THEN <<[prop |-> "C15", kind |-> IF t.panic # "" THEN "panic" ELSE "observation", id |-> t.id, line |-> l,
-                  detail |-> [method |-> r.method, header |-> r.header.h, body |-> r.body, param |-> r.param, source |-> e.src, variant |-> t.variant, got |-> got, want |-> want, panic |-> t.panic]]>> ELSE <<>>))
+                  detail |-> [method |-> r.method, header |-> r.header.h, body |-> r.body, param |-> r.param, pname |-> r.pname, source |-> e.src, variant |-> t.variant, got |-> got, want |-> want, panic |-> t.panic]]>> ELSE <<>>))
   /\ l' = l + 1
 TFinish ==
   /\ l = Len(Trace) + 1
